@@ -40,6 +40,29 @@ pub fn park_code(r: &Result<(), crate::park::ParkError>) -> usize {
     }
 }
 
+/// `std::time::Instant` look-alike for deadline loops: follows the virtual clock when one is installed
+#[derive(Clone, Copy, PartialEq, PartialOrd, Debug)]
+pub struct VInstant(u128);
+
+impl VInstant {
+    pub fn now() -> Self {
+        match now_ns() {
+            Some(t) => VInstant(t as u128),
+            None => {
+                static START: std::sync::OnceLock<std::time::Instant> = std::sync::OnceLock::new();
+                VInstant(START.get_or_init(std::time::Instant::now).elapsed().as_nanos())
+            }
+        }
+    }
+}
+
+impl std::ops::Add<std::time::Duration> for VInstant {
+    type Output = VInstant;
+    fn add(self, d: std::time::Duration) -> VInstant {
+        VInstant(self.0 + d.as_nanos())
+    }
+}
+
 /// `std::thread` look-alike for the timer thread: with a virtual clock installed a
 /// timed park becomes a short poll, so that only the controller moves time.
 pub mod vthread {
